@@ -583,7 +583,7 @@ func families(thorough bool) []bounds {
 	d.MaxKinds = 3
 	q.MaxSec, q.MaxTotal = 3, 4
 	slow := bounds{Name: "disk", Kinds: append(append([]string{}, slowKinds...), "local", "incmap", "inchan", "outchan"), MinKinds: 2, MaxKinds: 2, MaxSec: 2, MaxOps: 2, MaxTotal: 3, MustHave: slowKinds}
-	return []bounds{q, d, slow}
+	return []bounds{slow, d, q}
 }
 
 func TestCheck(t *testing.T) {
@@ -650,9 +650,15 @@ func TestCheck(t *testing.T) {
 		var samples []any
 		perFamily := map[string]any{}
 		seenKeys := map[string]bool{}
-		for _, b := range families(env.Thorough()) {
+		fams := families(env.Thorough())
+		for fi, b := range fams {
+			if only := os.Getenv("VERIF_C01_FAMILY"); only != "" && only != b.Name {
+				continue
+			}
 			cfgs := configs(b)
-			stt := explore.Run(mkBody(b, cfgs), explore.Options{Workers: env.Workers, Deadline: env.Deadline, Setup: setup, Samples: 2, MaxViol: 40})
+			// every family gets an equal share of what is left; the last one gets all of it
+			dl := time.Now().Add(time.Until(env.Deadline) / time.Duration(len(fams)-fi))
+			stt := explore.Run(mkBody(b, cfgs), explore.Options{Workers: env.Workers, Deadline: dl, Setup: setup, Samples: 2, MaxViol: 40})
 			evals += stt.Executions
 			distinct += stt.Outcomes
 			if !stt.Exhaustive {
